@@ -179,6 +179,7 @@ func (r *rewriter) rewriteFile(f *loader.File, printer FilePrinter) {
 	do(mkYieldFromRewriter(r, pkg)) // rewrite yieldFrom() to range yield() (range co.Iter)
 	do(r.rewriteForRanges)          // rewrite range co.Iter to for loop co.Iter
 	do(mkYieldRewriter(r, pkg))     // rewrite yield func
+	do(r.rejectResidualYield)       // whatever still refers to yield / yieldFrom would be dropped silently
 	do(r.rewriteIter)               // rewrite all co.Iter to seq.Iterator
 
 	// 3. write file
@@ -315,6 +316,17 @@ func (r *rewriter) attachComment(c *astutil.Cursor, pkg loader.Pkg) bool {
 			c.Replace(f)
 		}
 		return true
+	}
+	return true
+}
+
+// every supported use of Yield / YieldFrom (a call stmt in a yield func) has been rewritten,
+// any other use (e.g. as a func value: y := Yield[int]; y(1)) would compile to a call of the empty stub
+func (r *rewriter) rejectResidualYield(c *astutil.Cursor, pkg loader.Pkg) bool {
+	if id, ok := c.Node().(*ast.Ident); ok {
+		obj := pkg.ObjectOf(id)
+		isYield := obj != nil && (obj == r.yieldFunc || obj == r.yieldFromFunc)
+		r.assert(pkg, !isYield, id, "%s can only be called directly, as a stmt of a yield func", id.Name)
 	}
 	return true
 }
